@@ -7,6 +7,8 @@ CONSTANTS MaxDepth,     \* number of requests per sequence
           Modes,        \* index modes used in create / alter create / ensure
           FkModes,      \* fk modes (0 block, 1 cascade update, 3 cascade)
           FkCols,       \* column lists foreign keys may name in the target
+          Seeds,        \* start states (SeedsEmpty, SeedsRich, SeedsAll)
+          RichAt,       \* value of the request counter in the rich start states
           Wide          \* TRUE: also two-column indexes, renames of several columns, third table name
 
 VARIABLE n              \* requests so far
@@ -35,31 +37,46 @@ Req(op, t, t2, cols, idxs, from, to) ==
 
 DropIdx(c) == [mode |-> "i", cols |-> c, fk |-> NoFk3]
 
-Requests ==
+\* requests that can succeed only if table t does not exist
+NewReqs(t) ==
     \* create: key(a) alone (2 or 3 columns), one index of the pool, key(a) plus one or two
-    {Req("Create", t, "", c, <<KeyA>>, <<>>, <<>>) : t \in T \cup {"tables"}, c \in {<<"a", "b">>, <<"a", "b", "c">>}}
-    \cup {Req("Create", t, "", <<"a", "b", "c">>, <<x>>, <<>>, <<>>) : t \in T, x \in {x \in IdxPool : x.mode # "k" \/ x.fk.tbl # ""}}
-    \cup {Req("Create", t, "", <<"a", "b", "c">>, <<KeyA, x>>, <<>>, <<>>) : t \in T, x \in IdxPool}
-    \cup {Req("Create", t, "", <<"a", "b", "c">>, <<KeyA, x, y>>, <<>>, <<>>) : t \in T, x \in FkPool, y \in FkPool}
-    \* ensure: like create / alter create (existing parts are skipped)
-    \cup {Req("Ensure", t, "", <<"a", "b", "c">>, <<KeyA, x>>, <<>>, <<>>) : t \in T, x \in IdxPool}
-    \cup {Req("Ensure", t, "", <<"d">>, <<>>, <<>>, <<>>) : t \in T}
+    {Req("Create", t, "", c, <<KeyA>>, <<>>, <<>>) : c \in {<<"a", "b">>, <<"a", "b", "c">>}}
+    \cup {Req("Create", t, "", <<"a", "b", "c">>, <<x>>, <<>>, <<>>) : x \in {x \in IdxPool : x.mode # "k" \/ x.fk.tbl # ""}}
+    \cup {Req("Create", t, "", <<"a", "b", "c">>, <<KeyA, x>>, <<>>, <<>>) : x \in IdxPool}
+    \cup {Req("Create", t, "", <<"a", "b", "c">>, <<KeyA, x, y>>, <<>>, <<>>) : x \in FkPool, y \in FkPool}
+
+\* requests that can succeed only if table t exists
+OldReqs(t) ==
     \* alter create: one index, or one column
-    \cup {Req("AlterCreate", t, "", <<>>, <<x>>, <<>>, <<>>) : t \in T, x \in IdxPool}
-    \cup {Req("AlterCreate", t, "", <<c>>, <<>>, <<>>, <<>>) : t \in T, c \in {"c", "d"}}
+    {Req("AlterCreate", t, "", <<>>, <<x>>, <<>>, <<>>) : x \in IdxPool}
+    \cup {Req("AlterCreate", t, "", <<c>>, <<>>, <<>>, <<>>) : c \in {"c", "d"}}
     \* alter drop: one column and/or one index
-    \cup {Req("AlterDrop", t, "", <<>>, <<DropIdx(c)>>, <<>>, <<>>) : t \in T, c \in Cols1 \cup Cols2}
-    \cup {Req("AlterDrop", t, "", <<c>>, <<>>, <<>>, <<>>) : t \in T, c \in CNames}
-    \cup {Req("AlterDrop", t, "", <<c[1]>>, <<DropIdx(c)>>, <<>>, <<>>) : t \in T, c \in Cols1}
+    \cup {Req("AlterDrop", t, "", <<>>, <<DropIdx(c)>>, <<>>, <<>>) : c \in Cols1 \cup Cols2}
+    \cup {Req("AlterDrop", t, "", <<c>>, <<>>, <<>>, <<>>) : c \in CNames}
+    \cup {Req("AlterDrop", t, "", <<c[1]>>, <<DropIdx(c)>>, <<>>, <<>>) : c \in Cols1}
     \* alter rename
-    \cup {Req("AlterRename", t, "", <<>>, <<>>, <<f>>, <<g>>) : t \in T, f \in CNames, g \in CNames}
-    \cup (IF Wide THEN {Req("AlterRename", t, "", <<>>, <<>>, <<"a", "b", "d">>, <<"d", "a", "b">>) : t \in T}
-                       \cup {Req("AlterRename", t, "", <<>>, <<>>, <<"a", "b">>, <<"d", "a">>) : t \in T}
+    \cup {Req("AlterRename", t, "", <<>>, <<>>, <<f>>, <<g>>) : f \in CNames, g \in CNames}
+    \cup (IF Wide THEN {Req("AlterRename", t, "", <<>>, <<>>, <<"a", "b", "d">>, <<"d", "a", "b">>),
+                        Req("AlterRename", t, "", <<>>, <<>>, <<"a", "b">>, <<"d", "a">>)}
           ELSE {})
-    \* rename table, drop, view
-    \cup {Req("RenameTable", t, u, <<>>, <<>>, <<>>, <<>>) : t \in TNames, u \in TNames}
+    \cup {Req("RenameTable", t, u, <<>>, <<>>, <<>>, <<>>) : u \in TNames}
+
+\* requests whose fate does not depend on one table alone
+AnyReqs ==
+    \* ensure: like create / alter create (existing parts are skipped)
+    {Req("Ensure", t, "", <<"a", "b", "c">>, <<KeyA, x>>, <<>>, <<>>) : t \in T, x \in IdxPool}
+    \cup {Req("Ensure", t, "", <<"d">>, <<>>, <<>>, <<>>) : t \in T}
     \cup {Req("Drop", t, "", <<>>, <<>>, <<>>, <<>>) : t \in TNames \cup {"v"}}
     \cup {Req("View", t, "", <<>>, <<>>, <<>>, <<>>) : t \in {"ta", "v", "tables"}}
+    \cup {Req("Create", "tables", "", <<"a", "b">>, <<KeyA>>, <<>>, <<>>),
+          Req("AlterCreate", "tables", "", <<"d">>, <<>>, <<>>, <<>>),
+          Req("RenameTable", "tables", "tb", <<>>, <<>>, <<>>, <<>>)}
+
+\* the request universe: every request below is tried in every state (a create of an
+\* existing table and an alter / rename of a missing one fail by CreateInvalid resp.
+\* the first test of the alter actions, and failing requests leave the state unchanged,
+\* so Next does not evaluate them)
+Requests == AnyReqs \cup UNION {NewReqs(t) \cup OldReqs(t) : t \in TNames \ {"tables"}}
 
 \* failing requests leave the state unchanged: only successful outcomes are steps here
 \* (which requests must fail is validated against the real code by TraceSchema)
@@ -74,10 +91,45 @@ Populate == \E t \in DOMAIN sch :
                /\ Step([Req("Ins", t, "", <<>>, <<>>, <<>>, <<>>) EXCEPT
                           !.row = [k \in 1..Len(sch[t].cols) |-> k]])
 
-MCInit == Init /\ n = 0
+\* start states: the empty database, or databases built by the specification itself
+\* from request sequences (so that short sequences reach schemas with several links)
+RECURSIVE RunSeq(_, _)
+RunSeq(S, rs) ==
+    IF rs = <<>> THEN S
+    ELSE RunSeq((CHOOSE res \in Results(S, Head(rs)) : res.ok).st, Tail(rs))
+Empty == [sch |-> EmptyFn, views |-> EmptyFn, data |-> EmptyFn]
+Ix(m, c, t, fc) == [mode |-> m, cols |-> c, fk |-> [tbl |-> t, cols |-> fc, mode |-> 0]]
+Row(t, r) == [Req("Ins", t, "", <<>>, <<>>, <<>>, <<>>) EXCEPT !.row = r]
+SeedsEmpty == {Empty}
+SeedsRich == {
+    \* two indexes of tb reference the same key of ta, an index before them
+    RunSeq(Empty, <<Req("Create", "ta", "", <<"a", "b">>, <<KeyA, Ix("k", <<"b">>, "", <<>>)>>, <<>>, <<>>),
+                    Req("Create", "tb", "", <<"a", "b", "c", "d">>,
+                        <<Ix("k", <<"a">>, "", <<>>), Ix("i", <<"b">>, "ta", <<"a">>), Ix("i", <<"c">>, "ta", <<"a">>)>>, <<>>, <<>>),
+                    Row("ta", <<1, 2>>), Row("tb", <<1, 2, 3, 4>>)>>),
+    \* self references before and after the key, referenced from tb as well
+    RunSeq(Empty, <<Req("Create", "ta", "", <<"a", "b", "c">>,
+                        <<Ix("i", <<"b">>, "ta", <<"a">>), KeyA, Ix("k", <<"c">>, "ta", <<"a">>)>>, <<>>, <<>>),
+                    Req("Create", "tb", "", <<"a", "b">>, <<KeyA, Ix("i", <<"b">>, "ta", <<"a">>)>>, <<>>, <<>>),
+                    Row("ta", <<1, 2, 3>>)>>),
+    \* two tables referencing each other, a view
+    RunSeq(Empty, <<Req("Create", "tb", "", <<"a", "b">>, <<KeyA>>, <<>>, <<>>),
+                    Req("Create", "ta", "", <<"a", "b", "c">>, <<KeyA, Ix("i", <<"b">>, "tb", <<"a">>)>>, <<>>, <<>>),
+                    Req("AlterCreate", "tb", "", <<>>, <<Ix("i", <<"b">>, "ta", <<"a">>)>>, <<>>, <<>>),
+                    Req("View", "v", "", <<>>, <<>>, <<>>, <<>>)>>)}
+
+\* rich start states count as RichAt requests already made
+SeedsAll == SeedsEmpty \cup SeedsRich
+
+MCInit == \E S \in Seeds : /\ sch = S.sch /\ views = S.views /\ data = S.data
+                           /\ n = IF S = Empty THEN 0 ELSE RichAt
 MCNext == /\ n < MaxDepth
           /\ n' = n + 1
-          /\ ((\E r \in Requests : Step(r)) \/ Populate)
+          /\ \/ \E r \in AnyReqs : Step(r)
+             \/ \E t \in TNames \ {"tables"} :
+                   IF t \in DOMAIN sch THEN \E r \in OldReqs(t) : Step(r)
+                   ELSE \E r \in NewReqs(t) : Step(r)
+             \/ Populate
 Spec == MCInit /\ [][MCNext]_mcvars
 
 NReq == Cardinality(Requests)
